@@ -33,7 +33,7 @@ PIECES = [
 ]
 DICTIONARY = [
     "--in-place", "--with-ssl", "a-if", "x.is", "not-x", "for.txt", "a=None", "--lambda", "in", "echo-or", "is", "if", "and", "import", "class",
-    "del/", "-True", "yield.py", "./configure", "..", "...", "1e5x", "0x1f", "1_0", "1.", ".5", "1j", "0b2", "1__0", "1e+", "a1", "1a", "0_1",
+    "del/", "-True", "yield.py", "./configure", "..", "...", "1e5x", "0x1f", "1_0", "1.", ".5", "1j", "0b2", "1__0", "1e+", "a1", "1a", "0_1", "0755", "007", "05", "0_8", "00_1", "001", "09.5", "0777j", "00", "08e1", "2024-01-05", "0o9", "0x", "1e", "0b",
     "<=", ">>=", "->", ":=", "==", "!=", "<<", "**", "//", "a!=b",
     # non-ASCII letters, one per Unicode normalisation class: stable, NFKC-unstable, NFC-unstable (singleton), astral, CJK, case-odd; combining marks are not letters and stay outside
     "caf\u00e9", "\u00b5", "\ufb01le.txt", "\u212b", "\U0001d41ab", "\u4e2d\u6587", "\u00df", "\u0130x", "\u2460", "x\u00b2",
@@ -134,10 +134,12 @@ def check_case(case: dict, acc: Any) -> None:
         acc.count("outside:reserved-word")  # the quantifier removes Python reserved words (as whole words)
         return
     st, toks = run.our_tokens(src)
-    if st != "ok":
-        acc.count("outside:does-not-tokenize")
-        return
     acc.nontrivial(src)
+    if st != "ok":
+        # every text the independent splitter takes apart is made of complete words, strings and brackets: it tokenizes
+        acc.count("REJECTED")
+        acc.violation(f"REJECTED by the tokenizer {type(toks).__name__} {_kw(case['inner'])}", case, run.exc_brief(toks), text=src)
+        return
     st, tree = run.ours(src, "exec")
     acc.ran()
     if st != run.TREE:
